@@ -9,7 +9,7 @@ LEVEL = 'exploration'
 RULE = ("cases = generated signature (0-3 required, 0-3 defaulted, *args, 0-2+0-2 keyword-only, **kw) x kind {function, method via instance, "
         "functools.partial fixing leading positionals} x one binding x TWO spellings of it (positional prefix length, keyword order, defaults "
         "spelled or omitted) x keymap {raw,hash(None/md5/sha1),string(None/repr),pickle(None/pickle/dill)} x flat x typed x sentinel x path "
-        "{f.key, klepto.keygen, klepto._keygen+keymap, real calls}. Oracle: inspect.signature().bind(...)+apply_defaults equal => keys equal, and for "
+        "{f.key, klepto.keygen, klepto._keygen+keymap, real calls} x optionally an ignore specification (names, '*', '**') in effect. Oracle: inspect.signature().bind(...)+apply_defaults equal => keys equal, and for "
         "real calls the second spelling is not evaluated (log grows by one, one hit). non-trivial = the spellings differ in more than keyword order and "
         "the signature has a default, a keyword-only parameter or **kw with >= 2 extra keywords; distinct = (signature shape, kind, keymap, path, "
         "spelling shapes)")
